@@ -39,6 +39,10 @@ CASES = {
     # the poll thread polls is_connected while callers talk (its connect attempts are not rate limited)
     'poller-vs-comm': [[['sleep', 1.0], ['pollconn', None], ['sleep', 1.0], ['pollconn', None]],
                        [['comm', 'A1'], ['sleep', 1.0], ['comm', 'A2'], ['sleep', 1.0], ['comm', 'A3']]],
+    # self-healing, sequential: after a fault a no-reply command (writeline) is the first traffic, then calls until well
+    # after the reconnect interval: the last one must succeed again when the device is reachable
+    'heal-seq': [[['comm', 'A1'], ['sleep', 1.0], ['write', 'W1'], ['sleep', 1.0], ['comm', 'A2'], ['sleep', 11.0], ['comm', 'A3'],
+                  ['sleep', 11.0], ['comm', 'A4']]],
     'three': [[['comm', 'A1']], [['multi', [['M1', True, 0.2], ['M2', False, 0], ['M3', True, 0]]]], [['comm', 'C1']]],
 }
 
@@ -183,7 +187,10 @@ def do_op(io, kind, op, sched, eol='\n'):
                 io.communicate(arg.encode() + eol.encode(), 2 if kind == 'bytesvar' else len(arg) + 2 + len(eol))
             res = res if kind == 'string' else res.decode()[:-len(eol)]
         elif name == 'write':
-            io.writeline(arg)
+            if kind == 'string':
+                io.writeline(arg)
+            else:
+                io.communicate(arg.encode() + eol.encode(), 0)      # a byte communicator writes without reply this way
             res = None
         elif name == 'multi':
             if kind == 'string':
@@ -305,6 +312,26 @@ def judge(case, sched, x, world, out, net):
                     viol.append((f'call-raised-{r[3]}', f'caller {i} {name} {arg} raised {r[3]}: {r[6]}'))
                 elif not disturbed and world.nconn == 1:
                     viol.append(('call-failed-without-fault', f'caller {i} {name} {arg} raised {r[3]} ({r[6]}) although the device answered everything'))
+    # self-healing: a call issued more than a reconnect interval after the last fault, with every reconnect attempt accepted
+    # and its own command answered at once, succeeds
+    if case['name'].startswith('heal-seq'):
+        refused = any(e[0] == 'refused' for e in world.events)
+        for i, results in enumerate(out['results']):
+            comms = [r for r in results if r[0] == 'comm']
+            if comms and not refused:
+                last = comms[-1]
+                own = [a for c, a in world.answers if c == last[1]]
+                earlier_faults = [a for c, a in world.answers if c != last[1] and a != 'now']
+                prev = comms[-2] if len(comms) > 1 else None
+                prev_own = [a for c, a in world.answers if prev and c == prev[1]]
+                # the last two calls are 11 s apart: whatever went wrong before, the one before last has triggered (or found) a
+                # working connection or the last one does
+                if last[2] != 'ok' and (not own or own == ['now']) and (not prev_own or prev_own == ['now']) and \
+                        not any(a == 'trickle' for _c, a in world.answers):
+                    viol.append(('not-healed-after-the-reconnect-interval',
+                                 f'caller {i}: {last[1]} failed with {last[3]} ({last[6] if len(last) > 6 else ""}) {last[4] - comms[0][4]:g} s after the start '
+                                 f'although the device accepts connections and answers; device answers {world.answers}; '
+                                 f'connections {world.nconn}, attempts {[round(a - world.attempts[0], 1) for a in world.attempts]}'))
     # atomicity and delays of multicomm, from the device's receive log
     got = [(e[1], e[2]) for e in world.events if e[0] == 'dev-got']
     for ops in case['threads']:
@@ -377,7 +404,7 @@ def cases(tier):
     for name, threads in CASES.items():
         if quick and name == 'three':
             continue
-        seq = name == 'faults-seq'
+        seq = name in ('faults-seq', 'heal-seq')
         res.append({'name': f'{name}/string', 'kind': 'string', 'threads': threads,
                     'bound': 0 if seq else 2, 'dev': 3 if seq else 2,
                     'total': None if seq else (3 if quick else 4), 'nanswers': len(ANSWERS)})
@@ -385,8 +412,8 @@ def cases(tier):
                 'threads': [[['comm', 'A1'], ['comm', 'A2'], ['comm', 'A3']]], 'bound': 0, 'dev': 2, 'total': None, 'nanswers': len(ANSWERS)})
     res.append({'name': 'wait-before-two/string', 'kind': 'string', 'wait_before': 0.5,
                 'threads': [[['comm', 'A1'], ['comm', 'A2']], [['comm', 'B1']]], 'bound': 1, 'dev': 1, 'total': 2, 'nanswers': len(ANSWERS)})
-    for name in (['two-comm', 'multi-vs-comm'] if quick else ['two-comm', 'multi-vs-comm', 'faults-seq', 'faults-two']):
-        seq = name == 'faults-seq'
+    for name in (['two-comm', 'multi-vs-comm', 'heal-seq'] if quick else ['two-comm', 'multi-vs-comm', 'faults-seq', 'faults-two', 'heal-seq']):
+        seq = name in ('faults-seq', 'heal-seq')
         res.append({'name': f'{name}/bytes', 'kind': 'bytes', 'threads': CASES[name],
                     'bound': 0 if seq else 2, 'dev': 3 if seq else (1 if quick else 2), 'total': None if seq else (2 if quick else 3),
                     'nanswers': len(ANSWERS)})
